@@ -781,12 +781,17 @@ func (c *Converter) ConvertNotificationTypedValues(ctx context.Context, n *sdcpb
 			if err != nil {
 				return nil, err
 			}
-			expNn := &sdcpb.Notification{
+			// convert the typed values of the expanded updates and go on with the
+			// remaining updates of the notification
+			expNn, err := c.ConvertNotificationTypedValues(ctx, &sdcpb.Notification{
 				Timestamp: n.GetTimestamp(),
 				Update:    expUpds,
-				Delete:    n.GetDelete(),
+			})
+			if err != nil {
+				return nil, err
 			}
-			return c.ConvertNotificationTypedValues(ctx, expNn)
+			nn.Update = append(nn.Update, expNn.GetUpdate()...)
+			continue
 		}
 		if nup == nil { // filters out notification ending in non-presence containers
 			continue
